@@ -11,6 +11,7 @@ From Qryn Require Import model.ProfSel model.ReplanLang proofs.ReplanLangProofs.
 From Qryn Require Import model.ReplanProf proofs.ReplanProfProofs.
 From Coq Require QArith.
 From Qryn Require Import model.SqlEval model.ReplanAlpha proofs.ReplanAlphaProofs.
+From Qryn Require proofs.ReplanAlphaExamples.
 Import ListNotations.
 
 (* No Process method changes the plan object: whatever the planner tree, context and state, the
@@ -236,6 +237,23 @@ Theorem log_query_reexecution_one_context_same_meaning :
 Proof. exact log_query_one_context_same_meaning. Qed.
 Print Assumptions log_query_reexecution_one_context_same_meaning.
 
+(* ... and for every script - log or metric - in which no by / without occurs (script_by_free: a syntactic property of the parsed
+   query): same erasure (metric statements lie outside the subset SqlEval evaluates: for them this is the content) and same meaning. *)
+Theorem script_reexecution_one_context_same_erasure :
+  forall s fin p, script_by_free s = true -> plan_script s fin = Some p ->
+  forall k c st, erase_all (run_plan_sel k p c st) = erase_all (fresh_seq_sel k p c).
+Proof. exact script_one_context_same_erasure. Qed.
+Print Assumptions script_reexecution_one_context_same_erasure.
+Theorem script_reexecution_one_context_same_meaning :
+  forall (re_match : String.string -> String.string -> bool) (parse_float : String.string -> option QArith_base.Q)
+         (json_get : String.string -> list String.string -> String.string) (hash_labels : list (String.string * String.string) -> Z)
+         (tie : forall A : Type, list A -> list A) (db : database) s fin p,
+    script_by_free s = true -> plan_script s fin = Some p ->
+    forall k c st, map (meaning re_match parse_float json_get hash_labels tie db) (run_plan_sel k p c st) =
+                   map (meaning re_match parse_float json_get hash_labels tie db) (fresh_seq_sel k p c).
+Proof. exact script_one_context_same_meaning. Qed.
+Print Assumptions script_reexecution_one_context_same_meaning.
+
 (* The object trees of these theorems are the ones whose text the check compares with the real planners byte for byte:
    printing them gives LogqlCases.run_plan / Replan.fresh_seq. *)
 Theorem run_plan_prints_run_plan_sel :
@@ -257,12 +275,23 @@ Example alpha_guard_met_by_an_id_drawing_plan :
   | None => False
   end.
 Proof. exact witness_meets_alpha_guard. Qed.
+(* the meaning theorem is not vacuous: C07's example query draws an id per execution; both statements of one plan object under one
+   context evaluate (C07's example database, toy oracles) to the one matching line, and the second is, as text, not the fresh one *)
+Example one_context_meaning_is_not_vacuous :
+  match plan_log ReplanAlphaExamples.nv_query true with
+  | Some p => draws_ids p = true /\
+     ReplanAlphaExamples.nv_row_counts (run_plan_sel 2 p ReplanAlphaExamples.nv_ctx pst0) = [Some (Some 1%nat); Some (Some 1%nat)] /\
+     olist_eqb (run_plan 2 p ReplanAlphaExamples.nv_ctx pst0) (fresh_seq 2 p ReplanAlphaExamples.nv_ctx) = false
+  | None => False end.
+Proof. exact ReplanAlphaExamples.one_context_meaning_nonvacuous. Qed.
 Example alpha_guard_met_by_a_metric_plan :
   match plan_script metric_by_free_example true with
   | Some p => is_root p = true /\ no_by_without p = true /\ draws_ids p = true
   | None => False
   end.
 Proof. exact metric_by_free_meets_guard. Qed.
+Example by_free_guard_examples : script_by_free metric_by_free_example = true /\ script_by_free metric_by_example = false.
+Proof. exact metric_by_free_is_by_free. Qed.
 Example erase_is_not_trivial :
   erase_sel (set_from (WRef "a" empty_select) empty_select) <> erase_sel (set_from (WRef "b" empty_select) empty_select).
 Proof. exact erase_keeps_table_alias. Qed.
